@@ -188,4 +188,98 @@ def toksSource : Source → List Tok
   | .tags m => [⟨.tags, KV.LB :: (KV.line m ++ [KV.RB])⟩]
   | .expr e => toksExpr e
 
+
+/-! ## the TRUNCATE statement as a direct parser, and its tokens
+
+`Lql`: `"TRUNCATE" (@@)?`, `Truncate`: `(@"DRYRUN")? (@@)? ("MINSIZE" @Number)? ("MAXSIZE" @Number)? ("BEFORE" @String)?
+("MAXDBSIZE" @Number)?`. The unguarded `(@@)?` source is tried first; when it does not match, parsing goes on with the
+clauses (in the engine a failing source attempt that consumed at most one token is swallowed, a deeper one is a hard
+error — in both cases the direct parser rejects exactly when the engine does; compared on every run). -/
+
+def kwTRUNCATE : Bytes := [84, 82, 85, 78, 67, 65, 84, 69]
+def kwDRYRUN : Bytes := [68, 82, 89, 82, 85, 78]
+def kwMINSIZE : Bytes := [77, 73, 78, 83, 73, 90, 69]
+def kwMAXSIZE : Bytes := [77, 65, 88, 83, 73, 90, 69]
+def kwBEFORE : Bytes := [66, 69, 70, 79, 82, 69]
+def kwMAXDBSIZE : Bytes := [77, 65, 88, 68, 66, 83, 73, 90, 69]
+def tKw (k : Bytes) : Tok := ⟨.keyword, k⟩
+
+/-- `("KW" @Number)?` into a `*Size` (capture through `humanize.ParseBytes`); `none` = the parse fails -/
+def dSizeClause (kw : Bytes) : List Tok → Option (Option Nat × List Tok)
+  | [] => some (none, [])
+  | t :: rest =>
+    if litMatch t kw then
+      match rest with
+      | n :: rest' => if n.t == .number then (parseBytes n.v).map (fun v => (some v, rest')) else none
+      | [] => none
+    else some (none, t :: rest)
+
+/-- `("BEFORE" @String)?` into a `*DateTime` (capture through the opaque date parser `dp`) -/
+def dDateClause (dp : Bytes → Option Int) (kw : Bytes) : List Tok → Option (Option Int × List Tok)
+  | [] => some (none, [])
+  | t :: rest =>
+    if litMatch t kw then
+      match rest with
+      | n :: rest' => if n.t == .string then (dp n.v).map (fun v => (some v, rest')) else none
+      | [] => none
+    else some (none, t :: rest)
+
+/-- the unguarded `(@@)?` source of `Truncate` -/
+def dOptSource (f : Nat) : List Tok → Option (Option Source × List Tok)
+  | [] => some (none, [])
+  | t :: r =>
+    if t.t == .tags then (KV.tagParse t.v).map (fun m => (some (.tags m), r))
+    else match dExpr f (t :: r) with
+      | some (e, r') => some (some (.expr e), r')
+      | none => some (none, t :: r)
+
+def dDryRun : List Tok → Bool × List Tok
+  | [] => (false, [])
+  | t :: r => if litMatch t kwDRYRUN then (true, r) else (false, t :: r)
+
+/-- the `Truncate` struct on tokens; every token must be consumed -/
+def dTruncBody (dp : Bytes → Option Int) (f : Nat) (toks : List Tok) : Option Truncate :=
+  match dOptSource f (dDryRun toks).2 with
+  | none => none
+  | some (src, t2) =>
+    match dSizeClause kwMINSIZE t2 with
+    | none => none
+    | some (mn, t3) =>
+      match dSizeClause kwMAXSIZE t3 with
+      | none => none
+      | some (mx, t4) =>
+        match dDateClause dp kwBEFORE t4 with
+        | none => none
+        | some (bf, t5) =>
+          match dSizeClause kwMAXDBSIZE t5 with
+          | some (db, []) => some { dryRun := (dDryRun toks).1, source := src, minSize := mn, maxSize := mx, before := bf, maxDbSize := db }
+          | _ => none
+
+/-- `lql.ParseLql` on the tokens of a TRUNCATE statement -/
+def directTruncateFuel (dp : Bytes → Option Int) (f : Nat) : List Tok → Option Truncate
+  | [] => none
+  | t :: r => if litMatch t kwTRUNCATE then dTruncBody dp f r else none
+
+def directTruncate (dp : Bytes → Option Int) (toks : List Tok) : Option Truncate :=
+  directTruncateFuel dp (directFuel toks) toks
+
+def sizeToks (kw : Bytes) : Option Nat → List Tok
+  | none => []
+  | some n => [tKw kw, ⟨.number, decNat n⟩]
+
+def beforeToks (rd : Int → Bytes) : Option Int → List Tok
+  | none => []
+  | some v => [tKw kwBEFORE, ⟨.string, rd v⟩]
+
+/-- the clauses after the source, as `Truncate.makeString` prints them now -/
+def clauseToks (rd : Int → Bytes) (t : Truncate) : List Tok :=
+  sizeToks kwMINSIZE t.minSize ++ (sizeToks kwMAXSIZE t.maxSize ++ (beforeToks rd t.before ++ sizeToks kwMAXDBSIZE t.maxDbSize))
+
+def optSourceToks : Option Source → List Tok
+  | none => []
+  | some s => toksSource s
+
+def toksTruncate (rd : Int → Bytes) (t : Truncate) : List Tok :=
+  tKw kwTRUNCATE :: ((if t.dryRun then [tKw kwDRYRUN] else []) ++ (optSourceToks t.source ++ clauseToks rd t))
+
 end Logrange.Lql
